@@ -103,7 +103,7 @@ def _contract_of(text, fname):
         k = e + 1
         ens = []
         while True:
-            m2 = re.match(r'\s*(?:/\*.*?\*/\s*)*__CPROVER_(requires|ensures|assigns)\s*\(', text[k:], flags=re.S)
+            m2 = re.match(r'\s*(?:/\*(?:(?!\*/).)*\*/\s*)*__CPROVER_(requires|ensures|assigns)\s*\(', text[k:], flags=re.S)
             if not m2:
                 break
             pp = k + m2.end() - 1
@@ -131,8 +131,12 @@ def native_source(ctext, unit):
                 names.append(re.findall(r'(\w+)\s*(?:\[\s*\])?$', prm.strip())[0])
             olds = []
             checks = []
+            # object-like macros whose body mentions __CPROVER_old are expanded textually first
+            omac = dict(re.findall(r'^#define[ \t]+(\w+)[ \t]+(.*__CPROVER_old.*)$', text, flags=re.M))
             for e in ens:
                 e2 = e
+                for mn, mb in omac.items():
+                    e2 = re.sub(r'\b' + mn + r'\b', '(' + mb.strip() + ')', e2)
                 while '__CPROVER_old' in e2:
                     i = e2.index('__CPROVER_old')
                     p = e2.index('(', i)
@@ -151,7 +155,7 @@ def native_source(ctext, unit):
             else:
                 w += '  %s vf_ret = %s;\n' % (ret.replace('static', '').strip(), call)
             for e, e2 in checks:
-                msg = 'postcondition of %s: %s' % (fn, ' '.join(e.split()))
+                msg = 'postcondition of %s: %s' % (fn, ' '.join(e.split()).replace('==>', 'implies'))
                 w += '  __CPROVER_assert((%s), %s);\n' % (e2, json.dumps(msg))
             if ret.replace('static', '').strip() != 'void':
                 w += '  return vf_ret;\n'
@@ -245,7 +249,8 @@ def make_replay(pid, spec, r, obs, cfile, lines, spans, outdir, tier):
             with open(tfile, 'w') as f:
                 f.write('\n'.join(v for _, v in vals) + '\n')
             exe = os.path.join(outdir, u['name'] + '.native')
-            cp = subprocess.run(['gcc', '-O0', '-g', '-w', '-DVF_NATIVE', '-I', runner.PRELUDE, '-I', spec['dir'], nfile, '-o', exe],
+            ndefs = ['-D' + d for d in r['unit'].get('defines', [])]
+            cp = subprocess.run(['gcc', '-O0', '-g', '-w', '-DVF_NATIVE'] + ndefs + ['-I', runner.PRELUDE, '-I', spec['dir'], nfile, '-o', exe],
                                 stdout=subprocess.PIPE, stderr=subprocess.STDOUT, text=True, timeout=120)
             if cp.returncode != 0:
                 rec['native_replay'] = dict(route='R2', status='native build failed', output=cp.stdout[-2000:])
@@ -254,12 +259,14 @@ def make_replay(pid, spec, r, obs, cfile, lines, spans, outdir, tier):
                                     text=True, timeout=60)
                 out = rp.stdout[-3000:]
                 reproduced = 'REPLAY-FAIL' in out
-                if rp.returncode < 0:
+                if rp.returncode < 0 and not first['name'].startswith('memory/arithmetic'):
+                    out += '\nnative run died with signal %d although the failed obligation is not a memory-safety one: not counted as reproduced\n' % (-rp.returncode)
+                elif rp.returncode < 0:
                     reproduced = True
                     out += '\nREPLAY-FAIL: native run of the extracted text died with signal %d (e.g. SIGFPE = 8 division by zero, SIGSEGV = 11)\n' % (-rp.returncode)
                 rec['native_replay'] = dict(route='R2 (extracted text compiled with gcc, choices scripted from the trace)',
                                             status='reproduced' if reproduced else 'not reproduced', output=out,
-                                            cmd='gcc -DVF_NATIVE %s ; VF_TRACE=%s %s' % (nfile, tfile, exe))
+                                            cmd='gcc -DVF_NATIVE %s ; VF_TRACE=%s %s' % (nfile, tfile, exe), defines=r['unit'].get('defines', []))
         else:
             rec['verifier_output'] = 'cbmc reported FAILURE without a trace'
     except runner.Undecided as e:
@@ -295,7 +302,7 @@ def run_replay(path):
         nfile = cc[-1]
         exe = nfile[:-2]
         group = rec['group']
-        subprocess.run(['gcc', '-O0', '-g', '-w', '-DVF_NATIVE', '-I', runner.PRELUDE, '-I', os.path.join(VERIF, 'specs', group), nfile, '-o', exe])
+        subprocess.run(['gcc', '-O0', '-g', '-w', '-DVF_NATIVE'] + ['-D' + d for d in nr.get('defines', [])] + ['-I', runner.PRELUDE, '-I', os.path.join(VERIF, 'specs', group), nfile, '-o', exe])
         env, exe2 = parts[1].split()
         rp = subprocess.run([exe2], env=dict(os.environ, VF_TRACE=env.split('=', 1)[1]), stdout=subprocess.PIPE, stderr=subprocess.STDOUT, text=True)
         print(rp.stdout)
